@@ -1,93 +1,7 @@
 /-
   C06 — conditions: one truthiness rule, and-of-ors grouping, parentheses.
+  Props/C06Core.lean : the truthiness table and the evaluator (`C06_eval_correct` …).
+  Props/C06Consumers.lean : if / elseif / while / not all decide by that same evaluation.
 -/
-import DuckModel.Sdk.Condition
-import DuckModel.Spec.Cond
-import DuckModel.Lemmas.ConditionLemmas
-
-namespace Duck
-open Duck.Spec
-
-/-- the truthiness table of the code (regenerated from `is_true` on every run) is the one of
-    the property statement: falsy exactly when absent, empty, '0', 'false' or 'no',
-    case-insensitively -/
-theorem C06_truthiness (v : Option Str) : isTrue v = truthy v := by
-  exact isTrue_eq_truthy v
-
-theorem C06_falsy_iff (v : Option Str) :
-    isTrue v = false ↔
-      v = none ∨ ∃ s, v = some s ∧
-        (asciiLower s = [] ∨ asciiLower s = "0".toList ∨ asciiLower s = "false".toList ∨
-          asciiLower s = "no".toList) := by
-  rw [C06_truthiness]
-  cases v with
-  | none => simp [truthy]
-  | some s =>
-    constructor
-    · intro h
-      refine Or.inr ⟨s, rfl, ?_⟩
-      simpa only [truthy, Bool.not_eq_false', Bool.or_eq_true, decide_eq_true_eq, or_assoc,
-        String.toList_empty] using h
-    · rintro (h | ⟨s', h, h'⟩)
-      · cases h
-      · cases h
-        simpa only [truthy, Bool.not_eq_false', Bool.or_eq_true, decide_eq_true_eq, or_assoc,
-          String.toList_empty] using h'
-
-/-- every well-formed condition statement evaluates as the conjunction of disjunctions of
-    its atoms, groups being atoms evaluated by the same rule, wherever a group stands -/
-theorem C06_eval_correct (c : Cond) (h : c.OK) : evalSlice c.tokens = .ok c.eval := by
-  exact evalSlice_correct c h
-
-/-- in particular a group in first position followed by `or` (the repaired defect) -/
-theorem C06_group_first_or (g : Cond) (a : Atom) (hg : g.OK) (ha : a.OK) :
-    evalSlice ((Atom.group g).tokens ++ "or".toList :: a.tokens) = .ok (g.eval || a.eval) := by
-  have h := C06_eval_correct
-    (Cond.conj (Conj.one (Disj.cons (Atom.group g) (Disj.one a))))
-    (by simp only [Cond.OK, Conj.OK, Disj.OK, Atom.OK]; exact ⟨hg, ha⟩)
-  simpa only [Cond.tokens, Conj.tokens, Disj.tokens, Cond.eval, Conj.eval, Disj.eval,
-    Atom.eval] using h
-
-/-- an empty statement and an empty group are falsy -/
-theorem C06_empty_falsy : evalSlice [] = .ok false ∧ evalSlice ["(".toList, ")".toList] = .ok false := by
-  constructor <;> rfl
-
-/-- enough fuel is always provided: the result does not depend on extra fuel -/
-theorem C06_fuel_irrelevant (args : List Str) (extra : Nat) :
-    evalSliceF (args.length + 1 + extra) args = evalSlice args := by
-  exact evalSliceF_fuel_add args extra
-
-/-! ### non-vacuity -/
-
-/-- `( false ) or true` -/
-example : evalSlice ["(".toList, "false".toList, ")".toList, "or".toList, "true".toList]
-    = .ok true := by rfl
-
-/-- `true and ( false or ( ) )` -/
-example : evalSlice ["true".toList, "and".toList, "(".toList, "false".toList, "or".toList,
-    "(".toList, ")".toList, ")".toList] = .ok false := by rfl
-
-/-- `( true or false ) and ( ( no ) or yes )`: a concrete nested condition satisfying `OK`,
-    with its tokens, its specified value, and the evaluator's result on it -/
-example : ∃ c : Cond, c.OK ∧
-    c.tokens =
-      ["(".toList, "true".toList, "or".toList, "false".toList, ")".toList, "and".toList,
-       "(".toList, "(".toList, "no".toList, ")".toList, "or".toList, "yes".toList,
-       ")".toList] ∧
-    c.eval = true ∧ evalSlice c.tokens = .ok true := by
-  refine ⟨.conj (.cons
-      (.one (.group (.conj (.one (.cons (.val "true".toList) (.one (.val "false".toList)))))))
-      (.one (.one (.group (.conj (.one
-        (.cons (.group (.conj (.one (.one (.val "no".toList)))))
-          (.one (.val "yes".toList))))))))), ?_, ?_, ?_, ?_⟩
-  · simp only [Cond.OK, Conj.OK, Disj.OK, Atom.OK, ValOK]
-    decide
-  · simp [Cond.tokens, Conj.tokens, Disj.tokens, Atom.tokens]
-  · simp [Cond.eval, Conj.eval, Disj.eval, Atom.eval, truthy, asciiLower, asciiLowerChar]
-  · rw [C06_eval_correct _ (by simp only [Cond.OK, Conj.OK, Disj.OK, Atom.OK, ValOK]; decide)]
-    simp [Cond.eval, Conj.eval, Disj.eval, Atom.eval, truthy, asciiLower, asciiLowerChar]
-
-/-- a malformed statement is rejected, not silently evaluated -/
-example : evalSlice ["true".toList, "false".toList] = .error .unexpectedValue := by rfl
-
-end Duck
+import DuckModel.Props.C06Core
+import DuckModel.Props.C06Consumers
